@@ -26,9 +26,17 @@ PROFILE = S.profile(min_tasks=1, max_tasks=3, horizon=(2, 4), p_no_horizon=0, p_
                     p_optional=35, p_release=15, p_due=15, p_work_amount=10)
 
 
+# the first solve() is an optimisation (default incremental optimiser) whose objective is an indicator with declared
+# bounds: the optimiser leaves its loop early when the bound is reached; the enumeration that follows is judged as usual
+PROFILE_OBJ = S.profile(min_tasks=1, max_tasks=3, horizon=(2, 4), p_no_horizon=0, p_resources=60, task_constraints=(0, 1), optional_rules=(0, 0), resource_constraints=(0, 0),
+                        indicators=(1, 2), indicator_types=["FromMathExpression", "FromMathExpression", "ResourceUtilization"], p_indicator_bounds=90, objectives=(1, 1),
+                        only_objectives=["MaximizeIndicator", "MinimizeIndicator", "MaximizeResourceUtilization", "MinimizeMakespan"], p_weight_zero=0, p_optional=30,
+                        p_release=10, p_due=10, p_work_amount=5, p_cumulative=0, p_select=20)
+
+
 @st.composite
-def cases(draw):
-    spec = draw(S.specs(PROFILE))
+def cases(draw, prof=None):
+    spec = draw(S.specs(prof or PROFILE))
     keys = []
     for t in spec["tasks"]:
         keys += [["task", t["name"], "start"], ["task", t["name"], "end"]]
@@ -226,6 +234,7 @@ def run_history(ctx, case, check_name="C12.history"):
 def run_shard(ctx):
     n = {"quick": 140, "thorough": 1200}[ctx.tier]
     run_hypothesis(ctx, cases(), run_history, max_examples=n)
+    run_hypothesis(ctx, cases(PROFILE_OBJ), run_history, max_examples=max(40, n // 3))
 
 
 def replay(record):
